@@ -126,8 +126,10 @@ func matchesEmpty(n node, visiting map[*strct]bool) bool {
 		return true
 	case *reference:
 		return n.typ == lexer.EOF // A reference to EOF matches at the end of the input without consuming.
+	case *literal:
+		return n.s == "" && n.t == lexer.EOF // An empty, untyped literal matches any token, including EOF, which is not consumed.
 	}
-	// Literals, other references and negations consume a token; custom productions are assumed to.
+	// Other literals and references, and negations, consume a token; custom productions are assumed to.
 	return false
 }
 
